@@ -32,6 +32,27 @@ CHECKS = {
         note=BT + " Pseudo-determinant environments are chosen so that det(A^T A) is a perfect square. Compound differential operators are covered with the derivative checks.",
         design_ref="DESIGN.md §3 C06",
     ),
+    "C08": dict(
+        engine="Pullback",
+        technique="TLC exhaustive enumeration of (affine cell map, element) pairs in spec/Pullback.tla (textbook push-forward formulas over CQ rationals; invariants: K Moore-Penrose inverse, detJ^2=det(J^T J), shape algebra and flattening bijection, covariant/contravariant duality, double Piola = single Piola per index) + replay of every pair on real ufl: apply_function_pullbacks / pullback.apply results evaluated by vf/sem.py under the same map and reference values with exact comparison of every physical component and of the result shape",
+        text="9 concrete generic affine maps (2D/3D with det>0 and det<0, parallelogram, triangle in 3D, interval in 2D/3D, 1D det<0); all 7 pullback kinds x legal scalar/vector/tensor/blocked reference shapes, mixed pairs/triples, symmetric 2x2/3x3 (two numberings, mixed sub-element kinds incl. double Piola), depth-2 mixed/symmetric nestings: quick 1.5k pairs, thorough 23.6k TLC pairs + 7k seeded random trees; Coefficient, Argument, direct apply, restricted and form-integrand routes, two reference-value vectors; result shape = FunctionSpace.value_shape = spec shape.",
+        note="Trusted: TLC, CQ.tla, the formulas in Pullback.tla, vf/sem.py node semantics, the harness element classes. J, K, detJ stay terminals and are bound to the spec's map (detJ signed when square, positive pseudo-determinant when immersed). Affine maps, real values, single-domain meshes. Exhaustive for the enumerated universe only.",
+        design_ref="DESIGN.md §3 C08",
+    ),
+    "C11": dict(
+        engine="Signature",
+        technique="TLA+ model of form programs with a canonical form (spec/Signature.tla); TLC enumerates every single-site mutation / renaming / renamed mutant of bounded universes plus a seeded sample and checks rename-invariance and mutation-visibility of Canon; every state is replayed as a real ufl form (public API, fresh objects) and signatures must partition each neighbourhood exactly as Canon does",
+        text="Programs are tables of domains/elements/coefficients/constants plus integrals with integrand and metadata trees; Canon ignores exactly the renumberings the signature is meant to ignore. About 60 single-site mutation kinds (literal, fixed index, index pattern, operator, operand order, element degree/family/shape, cell, integral type, subdomain id, metadata key/value, argument number/part, restriction side, coefficient identity, base-form-operator derivatives/slots/space) and 9 renaming kinds over 8 bounded universes (<=2 integrals, integrand depth <=3; 32 seeded larger programs in thorough); quick 12.5k states / 670k pair comparisons, thorough 165k states / 71M pair comparisons; a vacuity guard requires all 71 site kinds to be exercised.",
+        note="Trusted: Canon as the definition of compiled meaning; vf.elements repr as element identity; equal-digit counts per build with order-preserving renamings (digit-boundary cases belong to C12); sha512 treated as collision-free. Injectivity is established for pairs at mutation distance <=2, not globally. Known findings (open): base-form-operator data (derivatives, function space, argument slots, Interpolate target space) is not part of the signature.",
+        design_ref="DESIGN.md §3 C11",
+    ),
+    "C12": dict(
+        engine="SigCounters",
+        technique="TLA+ state machine of global counters, build script and as-coded signature (spec/SigCounters.tla) model checked with TLC; bound to ufl by replaying TLC counterexamples and by trace validation (TLC evaluates the model signature at the recorded counters of real runs); the property is also checked on fresh interpreters per (program, counter history, PYTHONHASHSEED)",
+        text="Within bounds (scripts <=6-9 constructor calls over <=2 meshes, 3 constants, 2 indices; histories shifting <=2 counters by {1,8,9,10,90,98,99,100}) TLC proves the signature of the intended machine independent of the history and exhibits the counterexamples of the repr-string comparator and of the raw Zero hash data, which were reproduced on the pinned code. Every TLC-enumerated script run on real ufl has, at the observed counters, exactly the model's partition of histories. For 24 recipes and seeded random scripts all signatures (form, after renumber_indices, bare expression) are compared over systematic histories (all-equal and single-counter shifts, every digit boundary <=10000 at each position inside the program's own objects) and several hash seeds in fresh processes.",
+        note="Trusted: TLC; the read-back of Counted._counter / Mesh._ufl_global_id; vf/elements.py; the functional cmp_expr model for unshared trees (the loop itself is bound by C29). Creation order is kept identical across runs. Optional work is dropped by a deadline under load and counted.",
+        design_ref="DESIGN.md §3 C12",
+    ),
     "C10": dict(
         engine="UFLBuild",
         technique="TLC enumeration of index-notation programs of UFLBuild ending in the pass actions expand_indices / remove_ct / renumber + replay on the real passes with value, shape, free-index comparison and structural postconditions",
